@@ -14,6 +14,13 @@ package state
 //@   local block *xldgpb.InternalBlock
 //@   at Meta.UpdateNextIrreversibleBlockHeight assert irr_args_current: $0 == block.Height && $1 == t.meta.Meta.IrreversibleBlockHeight && $2 == t.meta.Meta.IrreversibleSlideWindow
 //@   at State.updateLatestBlockid assert irr_update_dominates_pointer: sel(irrUpdFor, ifacePtr($1)) == block.Height && bytesEq($0, block.Blockid)
+// C13: the producer applies only the award and the timer transaction of its own
+// block (the pool transactions are already applied) and drops the pool record of
+// every other one, all in the batch that moves the pointer.
+//@   at State.doTxInternal assert [C13] only_award_and_timer_are_applied: ($0.Coinbase || $0.Autogen) && $1 == batch
+//@   at Batch.Delete assert [C13] pool_record_of_a_packed_transaction: recv == batch && !tx.Coinbase && !tx.Autogen && str($0) == xldgpb.UnconfirmedTablePrefix + str(tx.Txid)
+//@   at State.payFee assert [C13] fee_in_the_same_batch: $0 == tx && $1 == batch && $2 == block
+//@   at State.updateLatestBlockid assert [C13] pointer_in_the_same_batch: $1 == batch
 
 //@ func State.PlayAndRepost
 //@   property C17
